@@ -15,6 +15,10 @@ class SortedSet(set):
         return iter(sorted(set.__iter__(self)))
 
 
+class ProjectBlackboard(Blackboard):
+    """a user's subclass of the blackboard"""
+
+
 def rec_val(v, present):
     if not present:
         return "-"
@@ -157,10 +161,12 @@ class BbRun(object):
         if op == "sunset":
             return self.res(Blackboard.unset(t[1]))
         if op == "stream":
+            # the stream is administered through a project's own subclass of Blackboard (introspection helpers are
+            # commonly hung there): it is the one stream of the one blackboard all the same
             if t[1] == "on":
-                Blackboard.enable_activity_stream(int(t[2]))
+                ProjectBlackboard.enable_activity_stream(int(t[2]))
             elif t[1] == "off":
-                Blackboard.disable_activity_stream()
+                ProjectBlackboard.disable_activity_stream()
             else:
                 if Blackboard.activity_stream is not None:
                     Blackboard.activity_stream.clear()
@@ -242,6 +248,10 @@ def name_step(line):
                     res(lambda: c.register_key(key="d/e", access=W))
                     res(lambda: setattr(c, "d/e", 3))
                     out.append(res(lambda: c.d.e))          # dotted access through the client's own namespace
+                    # ... after which the namespace `d` itself becomes a key of this client: reading it gives its value
+                    res(lambda: c.register_key(key="d", access=W))
+                    res(lambda: setattr(c, "d", 4))
+                    out.append(res(lambda: c.d))
                     return "R " + "|".join(out)
                 if t[0] == "cshare":
                     Blackboard.clear()
